@@ -84,7 +84,7 @@ class Gen:
 
     def new_alias(self, prefix='x'):
         self.n_alias += 1
-        if prefix == 'x' and self.cfg.shadow_aliases and self.chance(1, 30):
+        if prefix == 'x' and self.cfg.shadow_aliases and self.chance(1, 10):
             cand = [a for a in self.cfg.shadow_aliases if a not in getattr(self, '_used_shadow', set())]
             if cand:
                 a = self.pick(cand)
